@@ -39,7 +39,7 @@ def bamTp (a : Node) (m : Msg) (seq t : Nat) : Nat → TpDev :=
 
 /-- **the sender polls when the 50 ms pacing timer is due**: exactly one data packet; after the last one the transfer is over -/
 theorem poll_bam (a : Node) (d : Dev) (m : Msg) (seq t0 : Nat) (sl : List Slot) (out : List Delivery)
-    (hd : a.s.devs = [d]) (hq : Quiet a.s 0) (hm : m.dst = 255) (hp0 : m.pgn ≠ 0) (hlen : m.len ≤ 223)
+    (hd : a.s.devs = [d]) (hq : Quiet a.s 0) (hi : InfoIdle a 0) (hm : m.dst = 255) (hp0 : m.pgn ≠ 0) (hlen : m.len ≤ 223)
     (hdue : t0 + 51 ≤ a.s.now ∧ a.s.now < t0 + 50 + INT32_MAX) (h64 : a.s.now + 100 < M64)
     (hseq : seq < tpPacketCount m.len) :
     poll (a.upd (txTp a m seq t0 50) sl out [] []) =
@@ -58,7 +58,7 @@ theorem poll_bam (a : Node) (d : Dev) (m : Msg) (seq t0 : Nat) (sl : List Slot) 
   have hhp : (N.tp 0).hasPending = true := by subst hN; simp [txTp]
   have hrx : N.rxq = [] := by subst hN; rfl
   unfold poll
-  rw [flush_quiet N 0 hNq, pendingAll_solo N d hNd, hhp, hrx]
+  rw [flush_quiet N 0 hNq, pendingAll_solo N d hNd (by subst hN; exact hi), hhp, hrx]
   simp only [↓reduceIte, List.take_nil, List.drop_nil, rxList, List.foldl_nil]
   have hpt : pendingTP N 0 =
       (if tpPacketCount m.len ≤ seq + 1
@@ -93,7 +93,7 @@ theorem poll_bam (a : Node) (d : Dev) (m : Msg) (seq t0 : Nat) (sl : List Slot) 
     unfold Node.upd
     congr 1
     · funext j
-      by_cases hj : j = 0 <;> simp [txTp, doneTp, hj, Nat.mod_eq_of_lt (show seq + 1 < 256 by omega)]
+      by_cases hj : j = 0 <;> simp [txTp, doneTp, hj, hi.1, hi.2, Nat.mod_eq_of_lt (show seq + 1 < 256 by omega)]
   · rw [if_neg hall, if_pos (by omega)]
     simp only [setTimer, upd_setTp, upd_pushes, upd_tp, upd_flavor, upd_now, List.nil_append]
     unfold Node.upd
@@ -166,15 +166,17 @@ theorem rxB_last (mt k : Nat) (out : List Delivery) (fs rxq : List Frame) (hsrc 
       data := copyBuf (sessB a0 m srcA mt k).data 1 8 (dtBytes m k), lastFrame := (dtBytes m k).getD 0 0,
       msgTime := millis32 b.s.now }), ?_⟩
   unfold deliver
-  simp only [upd_setSlot, upd_slots, List.getElem?_set_self hj, List.set_set, upd_now]
+  simp only [upd_setSlot, upd_slots, List.set_set, List.getElem?_set_self hj, upd_now]
+  rw [systemMessage_tp _ _ (by rfl)]
+  simp only [upd_slots, upd_out, List.set_set, deliveryOf]
   have e1 : (copyBuf (sessB a0 m srcA mt k).data 1 8 (dtBytes m k)).take m.len = m.data.take m.len := htake
   simp only [Node.upd]
   congr 1
   simp only [sessB, bamSlot, startSlot] at e1 ⊢
   simp [e1, delivered]
 
-variable (hd : b.s.devs = [db]) (hq : Quiet b.s 0) (hnotp : (b.tp 0).hasPending = false)
-include hd hq hnotp
+variable (hd : b.s.devs = [db]) (hq : Quiet b.s 0) (hnotp : (b.tp 0).hasPending = false) (hib : InfoIdle b 0)
+include hd hq hnotp hib
 
 /-- the listening node polls with the BAM announce in its queue -/
 theorem poll_bam_announce (hsrc : srcA < 256) (hlen : m.len ≤ 223) (hpgn : m.pgn < 2^24)
@@ -186,7 +188,7 @@ theorem poll_bam_announce (hsrc : srcA < 256) (hlen : m.len ≤ 223) (hpgn : m.p
   generalize hN : b.upd b.tp b.slots [] [] [cmFrame srcA 255 (announceBytes 32 m)] = N
   have hNq : Quiet N.s 0 := by subst hN; exact upd_quiet _ _ _ _ _ _ hq
   have hNd : N.s.devs = [db] := by subst hN; exact hd
-  rw [poll_solo N db hNd hNq (fun h => by subst hN; simp [hnotp] at h) (by subst hN; simp)]
+  rw [poll_solo N db hNd hNq (by subst hN; exact hib) (fun h => by subst hN; simp [hnotp] at h) (by subst hN; simp)]
   have hrx : N.rxq = [cmIn srcA 255 (announceBytes 32 m)] := by subst hN; rfl
   rw [hrx]
   simp only [rxList, List.foldl_cons, List.foldl_nil]
@@ -219,7 +221,7 @@ theorem poll_bam_mid (mt k : Nat) (hsrc : srcA < 256) (hdst : m.dst = 255)
     poll (rcvB b m srcA j S' a0 mt [] k [] [dtFrame srcA m k]) = rcvB b m srcA j S' a0 (millis32 b.s.now) [] (k + 1) [] [] := by
   have hNd : (rcvB b m srcA j S' a0 mt [] k [] [dtFrame srcA m k]).s.devs = [db] := hd
   have hNq : Quiet (rcvB b m srcA j S' a0 mt [] k [] [dtFrame srcA m k]).s 0 := upd_quiet _ _ _ _ _ _ hq
-  rw [poll_solo _ db hNd hNq (fun h => by simp [rcvB, hnotp] at h) (by simp [rcvB])]
+  rw [poll_solo _ db hNd hNq hib (fun h => by simp [rcvB, hnotp] at h) (by simp [rcvB])]
   have hrxq : (rcvB b m srcA j S' a0 mt [] k [] [dtFrame srcA m k]).rxq = [dtFrame srcA m k] := rfl
   rw [hrxq]
   simp only [rxList, List.foldl_cons, List.foldl_nil]
@@ -233,7 +235,7 @@ theorem poll_bam_last (mt k : Nat) (hsrc : srcA < 256) (hdst : m.dst = 255)
     ∃ S'', poll (rcvB b m srcA j S' a0 mt [] k [] [dtFrame srcA m k]) = b.upd b.tp S'' [delivered m srcA 255] [] [] := by
   have hNd : (rcvB b m srcA j S' a0 mt [] k [] [dtFrame srcA m k]).s.devs = [db] := hd
   have hNq : Quiet (rcvB b m srcA j S' a0 mt [] k [] [dtFrame srcA m k]).s 0 := upd_quiet _ _ _ _ _ _ hq
-  rw [poll_solo _ db hNd hNq (fun h => by simp [rcvB, hnotp] at h) (by simp [rcvB])]
+  rw [poll_solo _ db hNd hNq hib (fun h => by simp [rcvB, hnotp] at h) (by simp [rcvB])]
   have hrxq : (rcvB b m srcA j S' a0 mt [] k [] [dtFrame srcA m k]).rxq = [dtFrame srcA m k] := rfl
   rw [hrxq]
   simp only [rxList, List.foldl_cons, List.foldl_nil]
@@ -277,6 +279,8 @@ structure BamHyp : Prop where
   qa : Quiet a.s 0
   qb : Quiet b.s 0
   bIdle : (b.tp 0).hasPending = false
+  aInfo : InfoIdle a 0
+  bInfo : InfoIdle b 0
   mdst : m.dst = 255
   len9 : 9 ≤ m.len
   len223 : m.len ≤ 223
@@ -320,13 +324,13 @@ theorem roundB_first (h : BamHyp a b da db m j S' a0) (tA tB dB dA : Nat) (hdA :
   have hnp : 2 ≤ tpPacketCount m.len := by have := h.len9; unfold tpPacketCount; omega
   unfold round
   simp only [wire_upd, List.nil_append, advance_upd]
-  have hp := poll_bam_announce (atTime b (tB + dB)) db m da.source j S' a0 h.devB (atTime_quiet _ h.qb) h.bIdle (by omega) h.len223
+  have hp := poll_bam_announce (atTime b (tB + dB)) db m da.source j S' a0 h.devB (atTime_quiet _ h.qb) h.bIdle h.bInfo (by omega) h.len223
     h.pgn24 h.known h.hS h.hj h.ha0
   rw [show (atTime b (tB + dB)).tp = b.tp from rfl, show (atTime b (tB + dB)).slots = b.slots from rfl] at hp
   rw [hp]
   unfold rcvB
   simp only [wire_upd, List.append_nil, advance_upd]
-  have hc := poll_bam (atTime a (tA + dA)) da m 0 tA a.slots a.out h.devA (atTime_quiet _ h.qa) h.mdst h.pgn0 h.len223
+  have hc := poll_bam (atTime a (tA + dA)) da m 0 tA a.slots a.out h.devA (atTime_quiet _ h.qa) h.aInfo h.mdst h.pgn0 h.len223
     ⟨by show tA + 51 ≤ tA + dA; omega, by show tA + dA < tA + 50 + INT32_MAX; omega⟩ (by show tA + dA + 100 < M64; exact h64) (by omega)
   rw [txTp_atTime, bamTp_atTime] at hc
   rw [hc]
@@ -341,7 +345,7 @@ theorem roundB_mid (h : BamHyp a b da db m j S' a0) (k tA tB mt dB dA : Nat) (hk
   have htight := tpPacketCount_tight m.len (by have := h.len9; omega)
   unfold round sndB rcvB
   simp only [wire_upd, List.nil_append, advance_upd]
-  have hp := poll_bam_mid (atTime b (tB + dB)) db m da.source j S' a0 h.devB (atTime_quiet _ h.qb) h.bIdle mt k (by omega) h.mdst h.none
+  have hp := poll_bam_mid (atTime b (tB + dB)) db m da.source j S' a0 h.devB (atTime_quiet _ h.qb) h.bIdle h.bInfo mt k (by omega) h.mdst h.none
     h.jlt h.hreq (by omega) h.len223
   unfold rcvB at hp
   rw [show (atTime b (tB + dB)).tp = b.tp from rfl] at hp
@@ -350,7 +354,7 @@ theorem roundB_mid (h : BamHyp a b da db m j S' a0) (k tA tB mt dB dA : Nat) (hk
   simp only [wire_upd, List.append_nil, advance_upd]
   have hbt : bamTp a m k tA = txTp a m (k + 1) tA 50 := by unfold bamTp; rw [if_pos hk]
   rw [hbt]
-  have hc := poll_bam (atTime a (tA + dA)) da m (k + 1) tA a.slots a.out h.devA (atTime_quiet _ h.qa) h.mdst h.pgn0 h.len223
+  have hc := poll_bam (atTime a (tA + dA)) da m (k + 1) tA a.slots a.out h.devA (atTime_quiet _ h.qa) h.aInfo h.mdst h.pgn0 h.len223
     ⟨by show tA + 51 ≤ tA + dA; omega, by show tA + dA < tA + 50 + INT32_MAX; omega⟩ (by show tA + dA + 100 < M64; exact h64) hk
   rw [txTp_atTime, bamTp_atTime] at hc
   rw [hc]
@@ -366,7 +370,7 @@ theorem roundB_last (h : BamHyp a b da db m j S' a0) (k tA tB mt dB dA : Nat) (h
   have hcov := tpPacketCount_cover m.len
   unfold round sndB rcvB
   simp only [wire_upd, List.nil_append, advance_upd]
-  obtain ⟨S'', hp⟩ := poll_bam_last (atTime b (tB + dB)) db m da.source j S' a0 h.devB (atTime_quiet _ h.qb) h.bIdle mt k (by omega) h.mdst
+  obtain ⟨S'', hp⟩ := poll_bam_last (atTime b (tB + dB)) db m da.source j S' a0 h.devB (atTime_quiet _ h.qb) h.bIdle h.bInfo mt k (by omega) h.mdst
     h.none h.jlt h.hreq (by omega) (by omega) h.len223 h.hdata
   unfold rcvB at hp
   rw [show (atTime b (tB + dB)).tp = b.tp from rfl] at hp
@@ -377,7 +381,7 @@ theorem roundB_last (h : BamHyp a b da db m j S' a0) (k tA tB mt dB dA : Nat) (h
   have hbt : bamTp a m k tA = doneTp a m (tpPacketCount m.len) := by unfold bamTp; rw [if_neg (by omega), hk]
   rw [hbt]
   have hidle := poll_idle ((atTime a (tA + dA)).upd (doneTp a m (tpPacketCount m.len)) a.slots a.out [] []) da h.devA
-    (upd_quiet _ _ _ _ _ _ (atTime_quiet _ h.qa)) (fun hh => by simp [doneTp] at hh) rfl
+    (upd_quiet _ _ _ _ _ _ (atTime_quiet _ h.qa)) h.aInfo (fun hh => by simp [doneTp] at hh) rfl
   rw [hidle]
 
 /-- from any packet on, the BAM transfer completes in the remaining number of rounds, whatever the delays from 51 ms on -/
